@@ -45,7 +45,7 @@ def gen_scenario(rng: random.Random, policy: str, flavour: str = "mixed"):
     if flavour == "preempt":
         cpus, multi, npools = rng.choice([1, 2, 3]), True, (2 if policy == "priority-pool" else rng.choice([1, 1, 2]))
         ram = rng.choice([20, 40, 80, 200, 400, 1000])
-    oc = policy == "overbook"
+    oc = policy == "overbook" or (policy in ("priority-pool", "priority") and rng.random() < 0.25)
     dur_ticks = rng.randint(25, 90)
     npipes = rng.randint(2, 9)
     arrivals, exact = {}, {}
